@@ -22,11 +22,17 @@ def seg_param(draw, p, positive):
 
 @st.composite
 def mean_var_args(draw, p, k):
-    """(means arg, variances arg, expanded per-segment means, expanded per-segment variances)."""
+    """(means arg, variances arg, expanded per-segment means, expanded per-segment variances).
+
+    Forms: one scalar for all segments (p = 1), one vector for all segments, or one entry per segment where every entry
+    is a per-column vector or - mixed freely inside the list - a scalar for all columns. The number of columns is taken
+    from the first mean, which is therefore a vector whenever p > 1."""
     out = []
     for positive in (False, True):
         mode = draw(st.sampled_from(["scalar", "shared_vector", "per_segment"])) if p == 1 else \
             draw(st.sampled_from(["shared_vector", "per_segment"]))
+        if k == 0 and mode == "per_segment":
+            mode = "shared_vector"
         if mode == "scalar":
             v = seg_param(draw, 1, positive)[0]
             out.append((v, [[v]] * k))
@@ -34,8 +40,17 @@ def mean_var_args(draw, p, k):
             v = seg_param(draw, p, positive)
             out.append(([v], [v] * k))
         else:
-            vs = [seg_param(draw, p, positive) for _ in range(k)]
-            out.append((vs, vs))
+            arg, expanded = [], []
+            for i in range(k):
+                if draw(st.integers(0, 2)) == 0 and (positive or i > 0 or p == 1):
+                    v = seg_param(draw, 1, positive)[0]  # a scalar entry among per-column ones
+                    arg.append(v)
+                    expanded.append([v] * p)
+                else:
+                    v = seg_param(draw, p, positive)
+                    arg.append(v)
+                    expanded.append(v)
+            out.append((arg, expanded))
     return out[0][0], out[1][0], out[0][1], out[1][1]
 
 
@@ -63,7 +78,7 @@ def anomalous_cases(draw, tier):
     n = draw(st.integers(1, 60))
     p = draw(st.integers(1, 4))
     an = draw(intervals_strategy(n))
-    if not an:
+    if not an and draw(st.integers(0, 2)) > 0:  # an empty list of anomalies stays in one case of three
         an = [[0, n]] if draw(st.booleans()) else [[n - 1, n]]
     if len(an) >= 2 and draw(st.sampled_from([True, False])):
         an = draw(st.permutations(an))  # anomalies need not be listed in increasing order
@@ -84,10 +99,15 @@ def alternating_cases(draw, tier):
 
 
 def as_arg(x):
-    """JSON -> what a user would pass (lists of arrays for vector parameters)."""
+    """JSON -> what a user would pass (lists whose entries are arrays for vector parameters, floats for scalar ones)."""
     if isinstance(x, list):
-        return [np.asarray(v, dtype=float) for v in x]
+        return [np.asarray(v, dtype=float) if isinstance(v, list) else v for v in x]
     return x
+
+
+def scribble(df):
+    """The caller edits a returned frame in place (as add_linspace_outliers does)."""
+    df.iloc[:, :] = df.to_numpy() * 0.0 + 12345.0
 
 
 def frame_checks(df, n, p, what):
@@ -106,7 +126,9 @@ def check_changing(case):
     args = dict(n=n, changepoints=case["changepoints"], means=as_arg(case["means"]), variances=as_arg(case["variances"]),
                 random_state=case["seed"])
     with sut("generate_changing_data"):
-        a = g(**args)
+        first = g(**args)
+        a = first.copy()
+        scribble(first)  # what the caller does with a returned frame must not leak into later calls
         b = g(**dict(args, means=as_arg(case["means"]), variances=as_arg(case["variances"])))
         cp = case["changepoints"]
         z = g(n=n, changepoints=cp, means=[np.zeros(p)], variances=[np.ones(p)], random_state=case["seed"])
@@ -137,7 +159,9 @@ def check_anomalous(case):
     args = dict(n=n, anomalies=a_arg, means=as_arg(case["means"]), variances=as_arg(case["variances"]),
                 random_state=case["seed"])
     with sut("generate_anomalous_data"):
-        a = g(**args)
+        first = g(**args)
+        a = first.copy()
+        scribble(first)
         b = g(**dict(args, means=as_arg(case["means"]), variances=as_arg(case["variances"])))
         z = g(n=n, anomalies=a_arg, means=[np.zeros(p)], variances=[np.ones(p)], random_state=case["seed"])
     frame_checks(a, n, p, "generate_anomalous_data")
@@ -160,7 +184,9 @@ def check_alternating(case):
     args = dict(n_segments=k, segment_length=L, p=p, mean=case["mean"], variance=case["variance"],
                 affected_proportion=case["affected_proportion"], random_state=case["seed"])
     with sut("generate_alternating_data"):
-        a = g(**args)
+        first = g(**args)
+        a = first.copy()
+        scribble(first)
         b = g(**args)
         z = g(**dict(args, mean=0.0, variance=1.0))
     frame_checks(a, n, p, "generate_alternating_data")
